@@ -44,6 +44,74 @@ def _task(args):
                     samples=[], undecided=[], functions=[], assumptions=[], lemmas=[], wall_s=0.0)
 
 
+def run_tasks(tasks, jobs):
+    """one subprocess per (harness, configuration): crash isolation and a hard wall-clock limit per task"""
+    import subprocess
+    import tempfile
+    tmp = tempfile.mkdtemp(prefix="symx_tasks_")
+    pending = list(enumerate(tasks))
+    running = {}
+    results = [None] * len(tasks)
+    attempts = {}
+    env = dict(os.environ, PYTHONPATH=ROOT + os.pathsep + os.environ.get("PYTHONPATH", ""), PYTHONDONTWRITEBYTECODE="1")
+    try:
+        while pending or running:
+            while pending and len(running) < jobs:
+                i, t = pending.pop(0)
+                inp = os.path.join(tmp, f"t{i}.in.json")
+                outp = os.path.join(tmp, f"t{i}.out.json")
+                with open(inp, "w") as fh:
+                    json.dump(t, fh)
+                if os.path.exists(outp):
+                    os.remove(outp)
+                p = subprocess.Popen([sys.executable, "-m", "symx.run", "--task", inp, "--out", outp], env=env, cwd=ROOT,
+                                     stdout=subprocess.DEVNULL, stderr=subprocess.PIPE)
+                limit = t[3].get("budget_s", 240) * 1.5 + 120
+                running[i] = (p, time.time(), limit, outp, t)
+            time.sleep(0.05)
+            for i in list(running):
+                p, st, limit, outp, t = running[i]
+                rc = p.poll()
+                if rc is None:
+                    if time.time() - st > limit:
+                        p.kill()
+                        p.wait()
+                        del running[i]
+                        results[i] = _stub(t, incomplete=True, note=f"task killed at the hard limit of {limit:.0f}s")
+                    continue
+                del running[i]
+                if os.path.exists(outp):
+                    try:
+                        results[i] = json.load(open(outp))
+                        continue
+                    except Exception:
+                        pass
+                err = (p.stderr.read() or b"").decode(errors="replace")[-1500:]
+                attempts[i] = attempts.get(i, 0) + 1
+                if attempts[i] <= 1:
+                    pending.append((i, t))      # a crashed worker (e.g. native fault in the solver) is retried once
+                else:
+                    results[i] = _stub(t, error=f"worker exited with code {rc} twice: {err}")
+    finally:
+        for p, *_ in running.values():
+            try:
+                p.kill()
+            except Exception:
+                pass
+        import shutil
+        shutil.rmtree(tmp, ignore_errors=True)
+    return results
+
+
+def _stub(t, incomplete=False, note=None, error=None):
+    prop, hname, cfg, opts = t
+    r = dict(prop=prop, harness=hname, config=cfg, stats=dict(incomplete=incomplete), violations=[], errors=[], samples=[],
+             undecided=[f"{note} @ {cfg}"] if note else [], functions=[], assumptions=[], lemmas=[], wall_s=0.0)
+    if error:
+        r["errors"].append(dict(kind="worker-crash", msg=error, config=cfg))
+    return r
+
+
 def known_findings():
     p = os.path.join(ROOT, "known_findings.json")
     if not os.path.exists(p):
@@ -93,13 +161,23 @@ def replay_file(prop, path):
 
 def main(argv=None):
     ap = argparse.ArgumentParser()
-    ap.add_argument("prop")
+    ap.add_argument("prop", nargs="?", default="")
     ap.add_argument("--tier", default=os.environ.get("VERIF_TIER", "quick"))
     ap.add_argument("--replay")
     ap.add_argument("--jobs", type=int, default=int(os.environ.get("VERIF_JOBS", "0")) or (os.cpu_count() or 4))
     ap.add_argument("--only", help="run only this harness")
     ap.add_argument("--serial", action="store_true")
+    ap.add_argument("--task")
+    ap.add_argument("--out")
     a = ap.parse_args(argv)
+    if a.task:
+        sys.path.insert(0, ROOT)
+        t = json.load(open(a.task))
+        res = _task(tuple(t))
+        with open(a.out + ".tmp", "w") as fh:
+            json.dump(res, fh, default=str)
+        os.replace(a.out + ".tmp", a.out)
+        return 0
     prop = a.prop.upper()
     sys.path.insert(0, ROOT)
     import logging
@@ -129,9 +207,7 @@ def main(argv=None):
     if a.serial or a.jobs <= 1 or len(tasks) <= 1:
         results = [_task(t) for t in tasks]
     else:
-        ctx = mp.get_context("spawn")
-        with ctx.Pool(min(a.jobs, len(tasks)), maxtasksperchild=8) as pool:
-            results = pool.map(_task, tasks, chunksize=1)
+        results = run_tasks(tasks, a.jobs)
     return finish(prop, tier, seed, mod, results, pre, time.time() - t0)
 
 
